@@ -18,6 +18,7 @@ def flow(prefix, profiles, variant, quick, thorough, **kw):
 
 
 C01_PROFILES = ["general", "rowhigh-any", "multirow", "turned", "polarity", "dense", "obstruction", "big"]
+CROWDED = ["crowded"]
 
 PLANS = {
     "C01": {
@@ -30,7 +31,8 @@ PLANS = {
         "assumptions": ["legality oracle written from the property text (independent of library helpers)",
                         "g++ ASan/UBSan runtimes; library assert()s compiled in (asan, fast builds)"],
         "trusted_base": ["harness/circ.hpp legality oracle", "g++ 12 sanitizer runtimes"],
-        "runs": flow("c01", C01_PROFILES, "asan", 4000, 12000) + flow("c01", C01_PROFILES, "fast", 0, 60000),
+        "runs": flow("c01", C01_PROFILES, "asan", 4000, 12000) + flow("c01", C01_PROFILES, "fast", 0, 60000)
+                + flow("c01", CROWDED, "asan", 1500, 6000) + flow("c01", CROWDED, "fast", 0, 40000),
     },
     "C02": {
         "level": "exploration",
@@ -40,6 +42,7 @@ PLANS = {
                 "DetailedPlacer. Data-structure layer: exhaustive BFS over swap/insert sequences on small DetailedPlacement instances",
         "assumptions": ["legality oracle independent of the library", "tall cells compared with the first callback state and the legalize-only copy"],
         "runs": flow("c02.api", C01_PROFILES, "asan", 1500, 6000) + flow("c02.api", C01_PROFILES, "fast", 0, 10000)
+                + flow("c02.api", CROWDED, "asan", 400, 2000) + flow("c02.api", CROWDED, "fast", 0, 10000)
                 + [R("h_dp", "asan", "c02.opt", 6000, 30000), R("h_dp", "fast", "c02.opt", 0, 60000),
                    R("h_dp", "fast", "c02.ds.closure", 1080, 1080, exhaustive=True),
                    R("h_dp", "asan", "c02.ds.walk", 20000, 200000)],
@@ -62,7 +65,8 @@ PLANS = {
                 "callback and on return of placeDetailed; non-trivial = polarised movable cells present and the call returned; "
                 "distinct = feature signature x outcome",
         "assumptions": ["rows at one y share one orientation (C01 domain)"],
-        "runs": flow("c04", C01_PROFILES, "asan", 2000, 8000) + flow("c04", ["polarity", "multirow", "general"], "fast", 0, 20000),
+        "runs": flow("c04", C01_PROFILES, "asan", 2000, 8000) + flow("c04", ["polarity", "multirow", "general"], "fast", 0, 20000)
+                + flow("c04", CROWDED, "asan", 400, 2000) + flow("c04", CROWDED, "fast", 0, 10000),
     },
     "C05": {
         "level": "exploration",
@@ -72,7 +76,8 @@ PLANS = {
         "assumptions": ["a rise is attributed to the known finding only if the frozen-orientation wirelength did not rise and a polarised cell with pins changed orientation"],
         "runs": flow("c05", ["general", "nets", "polarity", "dense", "multirow", "rowhigh-any"], "asan", 2000, 8000)
                 + flow("c05", ["general", "nets", "polarity", "dense", "multirow", "rowhigh-any"], "fast", 0, 12000)
-                + [R("h_dp", "asan", "c05.opt", 6000, 30000), R("h_dp", "fast", "c05.opt", 0, 60000)],
+                + [R("h_dp", "asan", "c05.opt", 6000, 30000), R("h_dp", "fast", "c05.opt", 0, 60000)]
+                + flow("c05", CROWDED, "asan", 400, 2000) + flow("c05", CROWDED, "fast", 0, 10000),
     },
     "C07": {
         "level": "exploration",
@@ -103,6 +108,7 @@ PLANS = {
         "assumptions": ["|v| < 2^20 so that the float ordering key is exact"],
         "runs": flow("c11.relegalize", ["general", "rowhigh", "obstruction", "polarity", "dense"], "asan", 3000, 10000)
                 + [R("h_flow", "asan", "c11.constructed", 10000, 40000)]
+                + flow("c11.relegalize", CROWDED, "asan", 600, 3000)
                 + flow("c11.relegalize", ["general", "rowhigh", "obstruction", "polarity", "dense"], "fast", 0, 20000)
                 + [R("h_flow", "fast", "c11.constructed", 0, 60000)],
     },
